@@ -15,8 +15,12 @@
 package redis
 
 import (
+	"errors"
+	"math"
 	"strconv"
 )
+
+var errOverflow = errors.New("increment or decrement would overflow")
 
 // nolint: gocyclo, maintidx, nilerr
 func (server *Server) registerSugarExecutors() {
@@ -34,6 +38,12 @@ func (server *Server) registerSugarExecutors() {
 				return nil, err
 			}
 			currVal = retVal
+		}
+		if 0 < val && math.MaxInt-val < currVal {
+			return nil, newInvalidArgumentError(cmd, "increment", errOverflow)
+		}
+		if val < 0 && currVal < math.MinInt-val {
+			return nil, newInvalidArgumentError(cmd, "decrement", errOverflow)
 		}
 		newVal := currVal + val
 		opt := newDefaultSetOption()
@@ -83,6 +93,9 @@ func (server *Server) registerSugarExecutors() {
 		inc, err := nextIntegerArgument(cmd, "decrement", args)
 		if err != nil {
 			return nil, err
+		}
+		if inc == math.MinInt {
+			return nil, newInvalidArgumentError(cmd, "decrement", errOverflow)
 		}
 		return incdecExecutor(conn, cmd, key, -inc)
 	})
